@@ -6,6 +6,7 @@
    Only statements, `exact`, and Print Assumptions. *)
 From Coq Require Import Permutation.
 From Adb Require Import Base BaseProofs Generated C15_Model C15_Proofs.
+From Adb Require Struct_Csp_Proofs.
 
 (* When a policy is returned: the request is document/sub-document, no matching exception is a
    blanket one, and the joined directives are exactly (each once) those named by a matching csp
@@ -78,3 +79,21 @@ Theorem C15_csp_mask_allows : forall t,
   check_cpt_allowed csp_type_mask t = negb (N.eqb (mask_of_request_type t) M_UNMATCHED).
 Proof. exact csp_mask_allows. Qed.
 Print Assumptions C15_csp_mask_allows.
+
+(* ---- Blocker::get_csp_directives itself, as the translator extracts it on every run
+   (Generated.CspGen), interpreted over the model's csp rules ---- *)
+Theorem C15_src_loop_is_model :
+  forall (fs : list csp_rule) (dis en : list str),
+  Struct_Csp_Proofs.interp_loop fs dis en = Some (csp_loop fs dis en).
+Proof. exact Struct_Csp_Proofs.interp_loop_is_model. Qed.
+Print Assumptions C15_src_loop_is_model.
+
+Theorem C15_src_get_csp_is_model :
+  forall (t : request_type) (matching : list csp_rule),
+  Struct_Csp_Proofs.interp_get_csp t matching = Some (get_csp_for t matching).
+Proof. exact Struct_Csp_Proofs.interp_get_csp_is_model. Qed.
+Print Assumptions C15_src_get_csp_is_model.
+
+Theorem C15_src_separator_is_model : CspGen.separator = COMMA.
+Proof. exact Struct_Csp_Proofs.separator_is_model. Qed.
+Print Assumptions C15_src_separator_is_model.
